@@ -28,7 +28,8 @@ PRIMARY = "240501#PR"
 BASE = {
     "p.zo": "# P page\n\n- 240101#P1 a note on p\n",
     "sub/q.zo": "# Q page\n\n- 240102#Q1 a note on q\n  * LID::anc\n- 240103#Q2 owner of gid ID::gid\n",
-    "r.zo": "# R page\n\n- 240104#R1 owner of rid RID::rid1\n- 240105#R2 zid target two\n",
+    "r.zo": "# R page\n\n- 240104#R1 owner of rid RID::rid1\n- 240105#R2 zid target two\n\n"
+            + "#" * 32 + " Project ID::sid\n\n- 240106#R3 first under the project\no 240107#R4 second under the project\n",
 }
 # target kinds: text on the line, and what it must resolve to
 TARGETS = {
@@ -39,6 +40,7 @@ TARGETS = {
     "rid": "[@rid1]",
     "zid": "240105#R2",
     "zidlink": "[240101#P1]",
+    "sid": "[#sid]",
 }
 TKEYS = list(TARGETS)
 PREFIXES = [
@@ -76,6 +78,8 @@ def expected_for_target(zd, t: str, owners: dict) -> tuple[list[str], int]:
         return ["SEARCH LID::loc"], 0
     if t == "gid":
         return [f"EDIT {zd}/{owners['gid']}", "SEARCH ID::gid"], 0
+    if t == "sid":
+        return [f"EDIT {zd}/r.zo", "SEARCH ID::sid"], 0
     if t == "rid":
         return [f"EDIT {zd}/{owners['rid']}", "SEARCH RID::rid1"], 0
     if t == "zid":
